@@ -281,6 +281,10 @@ Definition circle_cert_ok (a : circ_arc) (vs : list pt) (tol K slack : Q) : Prop
   ((* a circle smaller than the tolerance band: every circle point is within K tol of every vertex *)
    (forall P v, dist2 P c == r * r -> In v vs -> dist2 P v <= sqr (K * tol))
    \/
+   (* a single chord: every circle point is within K tol of its midpoint, every chord point within K tol of an end point *)
+   (exists v w, vs = [v; w] /\ (forall P, dist2 P c == r * r -> dist2 P (lerp v w (1 # 2)) <= sqr (K * tol)) /\
+                dist2 v w <= sqr (2 * (K * tol)))
+   \/
    (* every chord lies in the annulus [r - K tol, r + tol + slack], and every circle point in the cone of a chord
       (the arc between two consecutive vertices) is within max(K tol, tol + slack) of that chord *)
    (forall v w, adjp v w vs ->
@@ -302,7 +306,7 @@ Proof.
   { exists v0. split; [reflexivity|]. unfold peqb in E1, E2. apply andb_true_iff in E1. apply andb_true_iff in E2.
     destruct E1 as [A1 A2], E2 as [B1 B2]. apply Qeqb_eq in A1, A2, B1, B2. split; split; assumption. }
   split; [exact E3|]. split; [exact V|].
-  apply orb_true_iff in E8. destruct E8 as [T|C].
+  apply orb_true_iff in E8. destruct E8 as [TS|C]; [apply orb_true_iff in TS; destruct TS as [T|S]|].
   - left. apply Qleb_le in T. intros [Px Py] [vx vy] HP Hv.
     rewrite Forall_forall in V. specialize (V _ Hv).
     destruct c as [cx cy]. unfold dist2, nrm2, vdot, vsub, sqr, px, py in *. cbn [fst snd] in *.
@@ -310,7 +314,18 @@ Proof.
     assert (E: (Px - vx) * (Px - vx) + (Py - vy) * (Py - vy)
                == (Px - cx - (vx - cx)) * (Px - cx - (vx - cx)) + (Py - cy - (vy - cy)) * (Py - cy - (vy - cy))) by ring.
     rewrite E. eapply Qle_trans; [exact N|]. apply Qsq_le_mono; lra.
-  - right. apply andb_true_iff in C. destruct C as [C _].
+  - right. left. unfold chk_single_chord in S. fold vs in S.
+    destruct vs as [|v [|w [|? ?]]]; try discriminate.
+    rewrite !andb_true_iff in S. destruct S as [[S1 S2] S3]. apply Qleb_le in S1, S2, S3.
+    exists v, w. split; [reflexivity|]. split; [|exact S3].
+    intros [Px Py] HP. set (m := lerp v w (1 # 2)) in *. destruct m as [mx my].
+    destruct c as [cx cy]. unfold dist2, nrm2, vdot, vsub, sqr, px, py in *. cbn [fst snd] in *.
+    assert (Hd: 0 <= K * tol - r) by lra.
+    pose proof (circle_point_near (Px - cx) (Py - cy) (mx - cx) (my - cy) r (K * tol - r) (Qlt_le_weak _ _ E4) Hd HP S2) as N.
+    assert (E: (Px - mx) * (Px - mx) + (Py - my) * (Py - my)
+               == (Px - cx - (mx - cx)) * (Px - cx - (mx - cx)) + (Py - cy - (my - cy)) * (Py - cy - (my - cy))) by ring.
+    rewrite E. eapply Qle_trans; [exact N|]. apply Qsq_le_mono; lra.
+  - right. right. apply andb_true_iff in C. destruct C as [C _].
     intros v w A. pose proof (chk_chords_sound c (ca_sweep a) _ _ vs Hhi C v w A) as CO.
     split; [exact CO|]. intros P HP Hc. destruct CO as [_ [_ SG]].
     set (D := Qmax (K * tol) (tol + slack)).
